@@ -10,6 +10,13 @@ use bitcoin::hashes::Hash as _;
 pub fn mk_blkfile(id: u8) -> BlkFile {
     BlkFile::new(gfs::path_for(id as usize), None)
 }
+/// Stands in for the directory scan (real FS, not encoded): the data directory holds blk files 0 and 1.
+pub fn stub_from_path(_p: &Path) -> Result<HashMap<u64, BlkFile>> {
+    let mut m = HashMap::new();
+    m.insert(0, mk_blkfile(0));
+    m.insert(1, mk_blkfile(1));
+    Ok(m)
+}
 pub fn is_open(b: &BlkFile) -> bool { b.reader.is_some() }
 pub fn force_open(b: &mut BlkFile) {
     match b.open() { Ok(_) => {}, Err(e) => { core::mem::forget(e); } }
